@@ -9,3 +9,14 @@ chk("C03", "exploration",
     "Trusts: the 20-line bit-vector model; clang 14 as definition of C bit-field layout/values; rustc/Miri semantics; x86_64 little-endian host only.",
     "runtime monitoring: reference-model differential sweep (native + Miri) and C<->Rust differential probes",
     "DESIGN.md §4 C03")
+
+chk("C02", "exploration",
+    "Seeded C type graphs (nested/anonymous records, arrays, typedef chains, enums, bit-field runs, packed/aligned/pragma pack, "
+    "flexible arrays) x presentation option sets; one executable links a clang-compiled probe with a rustc-compiled probe that "
+    "include!s the bindings; sizes, alignments, member offsets/widths/signedness and values written on either side are compared, "
+    "objects live between canaries (memcheck on a sample in the thorough tier); bindgen's own const layout assertions are "
+    "evaluated by rustc. Held = no difference on any executed (header, option set).",
+    "Trusts clang 14 / rustc 1.95 on the x86_64 host as the two specifications; the generator's model only names members. "
+    "Compile failures of the bindings other than layout assertions are C01's and are counted inconclusive here.",
+    "runtime monitoring: differential C<->Rust probe executables + metamorphic option sets",
+    "DESIGN.md §4 C02")
